@@ -180,7 +180,7 @@ static std::string runCase(const J& c, Env& env) {
             if (env.eval(inv, res, nullptr)) o += ",\"inv\":" + cpArray(res);
         }
     } else {
-        fprintf(stderr, "unknown dir %s\n", dir.c_str()); _exit(2);
+        fprintf(stderr, "unknown dir %s\n", dir.c_str()); _exit(97);
     }
     return o + "}\n";
 }
@@ -219,7 +219,12 @@ static std::string crashEvent(const J& c, const std::string& how, pid_t pid) {
 }
 static void writeAll(int fd, const std::string& s) {
     size_t off = 0;
-    while (off < s.size()) { ssize_t n = write(fd, s.data() + off, s.size() - off); if (n <= 0) _exit(3); off += (size_t)n; }
+    while (off < s.size()) {
+        const ssize_t n = write(fd, s.data() + off, s.size() - off);
+        if (n < 0 && errno == EINTR) continue;
+        if (n <= 0) _exit(3);
+        off += (size_t)n;
+    }
 }
 static bool wellFormedLine(const std::string& l) {
     static const char pre[] = "{\"e\":\"Conv\",\"dir\":\"";
@@ -248,11 +253,12 @@ int main(int argc, char** argv) {
     for (size_t k = 0; k < cases.size(); ++k) {
         int fds[2];
         if (pipe(fds) != 0) { perror("pipe"); return 2; }
-        const pid_t pid = fork();
+        pid_t pid = fork();
+        for (int tries = 0; pid < 0 && errno == EAGAIN && tries < 100; ++tries) { usleep(100000); pid = fork(); }   // a busy machine
         if (pid < 0) { perror("fork"); return 2; }
         if (pid == 0) {
             close(fds[0]);
-            alarm(20);
+            alarm(60);
             writeAll(fds[1], runCase(cases[k], env));
             _exit(0);
         }
@@ -266,7 +272,8 @@ int main(int argc, char** argv) {
         close(fds[0]);
         int st = 0;
         if (waitpid(pid, &st, 0) < 0) { perror("waitpid"); return 2; }
-        if (WIFEXITED(st) && (WEXITSTATUS(st) == 2 || WEXITSTATUS(st) == 3)) { rc = 2; break; }   // harness usage error
+        // (no exit status of a child is trusted to mean anything but "this case did not finish": a child whose stack
+        // was overrun can end up anywhere, including in an exit path)
         const bool normal = WIFEXITED(st) && WEXITSTATUS(st) == 0;
         const std::string want = "{\"e\":\"Conv\",\"dir\":" + jstr(cases[k].str("dir"));
         const bool oneLine = !data.empty() && data.back() == '\n' && data.find('\n') == data.size() - 1;
